@@ -325,6 +325,7 @@ class _C08(_RulesBase):
     pid = "C08"
     lean_module = "Starcal.Props.C08"
     src_ties = ["Starcal.SrcTie.Valid"]
+    src_overflow = ["Starcal.SrcTie.NoOverflow2"]
     expected = "in format and in range: decodes, passes the check, carries exactly the numbers written; in format with a field out of range: never both decoded and accepted; not in the format: decode error"
     rule = ("line protocol `rules decode <type> <hex> <expectation>`: values from a grammar of each of the 19 rule types' formats, every numeric field drawn from in-range values, "
             "boundaries, out-of-range values in [-70000,70000] incl. 256k+r aliases, optional leading zeros / '+'; range lists of <=6 ranges in every spelling ('a','a]','a-b','a-b]','-(a-b)','-(a-b])') "
@@ -522,6 +523,7 @@ class _C14(_RulesBase):
     pid = "C14"
     lean_module = "Starcal.Props.C14"
     src_ties = ["Starcal.SrcTie.Valid"]
+    src_overflow = ["Starcal.SrcTie.NoOverflow2"]
     expected = "String then Parse is the identity for in-range dates, times, days+time, date-times (negative and >4-digit years too); the parsers return an error or a value for every string, never panic; a parsed value passing its validity check carries exactly the numbers written"
     rule = ("line protocol `text`: `shms` for all 86 400 valid times (print, model vs code; parse-back on the real code); `sdate` for month 1..12 x day 1..39 x a 25-year set spanning -10^6..10^6 "
             "plus seeded years; `sdhms` days 0..10^6 sampled; `sdatehms`; parsers on every string of length <=4 (quick) / <=5 (thorough; <=6 for pdate, phms) over the 10-symbol alphabet "
